@@ -10,7 +10,7 @@
   both folds give one offset / abbreviation / dst), exists_iff (datetime_exists = (pre ≠ ∅), either
   fold), fold_selects (earlier ↦ fold 0, later ↦ fold 1, and the folds lead back to exactly those
   instants), fold_distinguishes, resolve_imaginary on existing times and inside a gap
-  (resolve_imaginary_gap: gap ≤ 24 h, no other change within 24 h; wider gaps are D-C05g).
+  (resolve_imaginary_gap: any gap width, neighbouring transitions at least one gap width away).
   `CovWall r w`: the wall time lies below the reading at which the last recorded transition takes
   effect, or `ttinfo_std` is the last transition's type.
 -/
@@ -327,18 +327,19 @@ theorem exists_iff (r : Raw) (hwf : Spec.wf r = true) (hne : r.trans ≠ []) (w 
         exact ⟨t, this⟩
 
 /-- **resolve_imaginary_spec (gap half).** `w` lies in the gap of the change at `u` (offset
-    `ob` before, `oa` after: `u + ob ≤ w < u + oa`, so it has no pre-image); the gap is at most
-    24 h wide; no other change within 24 h: the next transition is at least 24 h later and, in
-    wall-clock terms, the previous one took effect at least 24 h before the gap starts.  Then
-    `resolve_imaginary` moves `w` forward by exactly the gap width, and the result exists.
-    (Gaps wider than 24 h: known finding D-C05g.) -/
+    `ob` before, `oa` after: `u + ob ≤ w < u + oa`, so it has no pre-image), of ANY width; the
+    neighbouring transitions are at least one gap width away (`u' + (oa - ob) ≤ u` for earlier,
+    `u + (oa - ob) ≤ u'` for later ones).  Then `resolve_imaginary` moves `w` forward by exactly
+    the gap width, and the result exists.  (Since the D-C05g repair the gap is measured by a UTC
+    round trip: the former hypotheses "gap ≤ 24 h" and "no other change within 24 h" are gone;
+    two transitions closer than one gap width make "forward by the gap width AND existing"
+    unsatisfiable in general — e.g. two one-hour gaps 30 min apart.) -/
 theorem resolve_imaginary_gap (r : Raw) (hwf : Spec.wf r = true) (w : Int) (f : Bool) (u ob oa : Int)
     (hu : u ∈ r.trans.map (fun p => p.1))
     (hob : offsetAt r (u - 1) = some ob) (hoa : offsetAt r u = some oa)
-    (hgap : u + ob ≤ w ∧ w < u + oa) (hwidth : oa - ob ≤ 86400)
-    (hnext : ∀ u' ∈ r.trans.map (fun p => p.1), u < u' → u + 86400 ≤ u')
-    (hprev : ∀ u' ∈ r.trans.map (fun p => p.1), u' < u →
-      ∀ ob', offsetAt r (u' - 1) = some ob' → u' + ob' + 86400 ≤ u + ob)
+    (hgap : u + ob ≤ w ∧ w < u + oa)
+    (hnext : ∀ u' ∈ r.trans.map (fun p => p.1), u < u' → u + (oa - ob) ≤ u')
+    (hprev : ∀ u' ∈ r.trans.map (fun p => p.1), u' < u → u' + (oa - ob) ≤ u)
     (hcov : LastStd (build r) ∨ ∃ u' ∈ r.trans.map (fun p => p.1), u < u') :
     pre r w = [] ∧
     resolveImaginary (build r).ops ⟨w, f⟩ = .ok ⟨w + (oa - ob), false⟩ ∧
@@ -378,19 +379,17 @@ theorem resolve_imaginary_gap (r : Raw) (hwf : Spec.wf r = true) (w : Int) (f : 
       · omega
   have main := hc.resolve_gap hw w f (by omega)
     (by rw [hk]; simp only [Nat.add_sub_cancel]; omega)
-    (by rw [hk]; simp only [Nat.add_sub_cancel]; omega)
     (by rw [hk]; intro hn
         simp only [Nat.add_sub_cancel]
         have := hnext _ (U_mem (i + 1) hn) (hc.utc_lt hw i (i + 1) (by omega) hn)
+        have e3 := offsetAt_eq r hwf hf hfb hc hw (U (build r) i)
         simp only [Hi, Lo]; omega)
     (by rw [hk]; intro h1
         have e : i + 1 - 2 = i - 1 := by omega
         simp only [Nat.add_sub_cancel, e]
         have hi1 : i - 1 < (build r).utc.length := by omega
-        have e3 := offsetAt_eq r hwf hf hfb hc hw (U (build r) (i - 1) - 1)
-        rw [hc.count_before hw (i - 1) hi1] at e3
-        have := hprev _ (U_mem (i - 1) hi1) (hc.utc_lt hw (i - 1) i (by omega) hi) _ e3
-        simp only [Hi]; omega)
+        have := hprev _ (U_mem (i - 1) hi1) (hc.utc_lt hw (i - 1) i (by omega) hi)
+        simp only [Hi, Lo]; omega)
     (by rw [hk]; exact hcovd)
   rw [hk] at main
   simp only [Nat.add_sub_cancel] at main
@@ -441,6 +440,15 @@ example : offsetAt exR (1000000 - 1) = some 0 ∧ offsetAt exR 1000000 = some 36
     resolveImaginary (build exR).ops ⟨1001800, false⟩ = .ok ⟨1005400, false⟩ ∧
     pre exR 1005400 = [1001800] := by decide
 example : isAmbiguous (build exR) 2000100 = true ∧ (pre exR 2000100).length = 2 := by decide
+
+/-- a gap WIDER than 24 h (−12 h → +13 h at 1000000, the next change 10^6 s later): every skipped wall time is moved
+    forward by exactly 90000 s and then exists — the case the 24 h probes of the code before the D-C05g repair missed -/
+def exWide : Raw := { trans := [(1000000, 1), (2000000, 0)],
+                      types := [⟨-43200, 0, [65], false, false, 0⟩, ⟨46800, 1, [66], false, false, 0⟩] }
+example : Spec.wf exWide = true ∧ pre exWide 1000000 = [] ∧
+    resolveImaginary (build exWide).ops ⟨1000000, false⟩ = .ok ⟨1090000, false⟩ ∧
+    resolveImaginary (build exWide).ops ⟨956800, true⟩ = .ok ⟨1046800, false⟩ ∧
+    pre exWide 1090000 = [1043200] := by decide
 example : CovWall exR 2000100 := Or.inr ⟨3000000, 0, 3600, by decide, by decide, by decide, by decide⟩
 
 end C05
